@@ -36,3 +36,12 @@ contract('vivarium.library.topology:assoc_path',
          ensures=['d == tset(old(d), path, value)', 'ret == d'],
          decreases='len(path)',
          note='the empty-path case (deep_merge of a dict value into d) is specified with deep_merge: see assoc_path[root]')
+
+contract('vivarium.library.topology:update_in',
+         props=['C17', 'C06'],
+         types={'d': 'Tree', 'path': 'Path', 'f': 'Fun[Tree->Tree]', 'ret': 'Tree', 'head': 'Atom', 'updated': 'Tree'},
+         requires=['walkable(d, path)'],
+         mutates=['d'],
+         ensures=['ret == tupd(old(d), path, f(tsub(old(d), path)))',    # only the addressed subtree differs
+                  'd == tmk(old(d), path)'],                              # the documented setdefault on the input
+         decreases='len(path)')
